@@ -1023,6 +1023,15 @@ copy_substitute_decl(CPPScope *to_scope, CPPDeclaration::SubstDecl &subst,
                         native_scope, to_scope, _struct_type->_file);
     to_scope->_struct_type->_incomplete = false;
 
+    // Within its own members, the name of the class means the class that is
+    // being made (the injected class name), not the template.  (When we get
+    // here from CPPStructType::substitute_decl(), that supplies proxies for
+    // the type it will return.)
+    if (!_struct_type->_subst_decl_recursive_protect) {
+      subst.insert(CPPDeclaration::SubstDecl::value_type(_struct_type,
+                                                         to_scope->_struct_type));
+    }
+
     // Copy the derivation to the new type.
     CPPStructType::Derivation::const_iterator di;
     for (di = _struct_type->_derivation.begin();
